@@ -41,6 +41,13 @@ def config_file(cfg, rng):
         phdrs.insert(0, {"type": elfgen.PT_NOTE, "flags": 4, "vaddr": BASE + cfg["pg"][0] * 4096, "data": b"", "memsz": 0, "filesz": 0})
     elif cfg["extra"] == "gnustack":
         phdrs.append({"type": elfgen.PT_GNU_STACK, "flags": 6, "vaddr": 0, "data": b"", "memsz": 0, "filesz": 0})
+    elif cfg["extra"] in ("tls", "relro") and MEMSZ[cfg["sz"][0]] >= 1:
+        # a header that refers to the first loadable segment (whatever its flags) without owning memory: the segment keeps
+        # the permissions of ITS flags
+        s0 = segs[0]
+        n0 = min(16, MEMSZ[cfg["sz"][0]])
+        phdrs.append({"type": elfgen.PT_TLS if cfg["extra"] == "tls" else 0x6474e552, "flags": 4, "vaddr": s0["vaddr"], "data": b"",
+                      "offset": 0x1000, "filesz": min(n0, FILESZ[cfg["sz"][0]]), "memsz": n0, "align": 8})
     entry = BASE + cfg["pg"][0] * 4096
     symbols = None
     symrec = []
@@ -144,7 +151,7 @@ def random_configs(rng, n):
         if any(s == "twopage" and (p + 1) in pgs for s, p in zip(szs, pgs)):
             continue
         cfgs.append({"n": k, "pg": pgs, "sz": szs, "fl": [rng.randrange(8) for _ in range(k)],
-                     "sy": rng.choice(["none", "named", "unnamed", "dup", "entry-other-name"]), "extra": rng.choice(["none", "note", "gnustack"]),
+                     "sy": rng.choice(["none", "named", "unnamed", "dup", "entry-other-name"]), "extra": rng.choice(["none", "note", "gnustack", "tls", "relro"]),
                      "shuffle": True})
     return cfgs
 
